@@ -9,6 +9,8 @@ CHECKS=${*:-$P}
 SRC=/tmp/wt/$P/mutants
 [ -d /verif/seeded/$P-$X ] && SRC=/verif/seeded/$P-$X
 DIFF=$SRC/$X.diff; [ -f $SRC/patch.diff ] && DIFF=$SRC/patch.diff
+# a patch written against an older tree may have been re-based by hand onto the current one
+[ -f $SRC/patch.rebased.diff ] && DIFF=$SRC/patch.rebased.diff
 DEMO=$(ls $SRC/${X}_demo_test.go $SRC/demo_test.go 2>/dev/null | head -1)
 export GOFLAGS=-mod=mod GOPROXY=off GOSUMDB=off
 W=/tmp/eval-$P-$X
@@ -38,16 +40,20 @@ if [ -n "$DEMO" ] && [ -n "$PKGDIR" ]; then
 fi
 cd /; git -C /repo worktree remove --force $W
 echo "   build=$BUILD suite=$SUITE demo-with-change=$DEMOWITH demo-without=$DEMOWITHOUT"
-# now our checks against /repo
-if [ -n "$(git -C /repo status --short)" ]; then echo "/repo not clean"; exit 2; fi
-git -C /repo apply $DIFF || { echo "RESULT $P-$X: cannot apply to /repo"; exit 1; }
+# now our checks, against a scratch copy of /repo with the change applied (VERIF_REPO), so that
+# /repo itself stays untouched and several evaluations can run side by side
+S=/tmp/evalrepo-$P-$X
+rm -rf $S; git -C /repo worktree prune; git -C /repo worktree add -q --detach $S HEAD || exit 2
+git -C $S apply $DIFF || { echo "RESULT $P-$X: diff does not apply"; git -C /repo worktree remove --force $S; exit 1; }
+export VERIF_REPO=$S
 for C in $CHECKS; do
   OUT=$(cd /verif && ./check $C quick 2>&1); RC=$?
   V=$(echo "$OUT" | grep -c '^VIOLATION')
   K=$(echo "$OUT" | grep '^VIOLATION' | head -1 | sed 's/.*replay=//')
   KEY=""; [ -n "$K" ] && KEY=$(python3 -c "import json;print(json.load(open('$K'))['violations'][0]['key'])" 2>/dev/null)
   echo "   check $C: exit=$RC violations=$V key=$KEY"
-  rm -rf /verif/replays/$C/found
 done
-git -C /repo checkout -- .
+unset VERIF_REPO
+git -C /repo worktree remove --force $S
+rm -rf /verif/.run/alt-*/replays
 echo "RESULT $P-$X: build=$BUILD suite=$SUITE demo=$DEMOWITH/$DEMOWITHOUT"
